@@ -296,7 +296,7 @@ def h_sandwich(B, bun, inv, cplx=False, outer=None):
         Mb = {"matrix": m, "diag": np.diag(e), "scaling": np.eye(N, dtype=object) * s,
               "matrix_diag": m @ np.diag(e)}[bun]
         A = np.conjugate(Mb).T @ np.diag(d) @ Mb
-        want_inverse = inv ^ (outer == "inv")
+        want_inverse = inv ^ (outer in ("inv", "adjinv", "invadj"))
         invertible_bun = bun in ("diag", "scaling")
         if bun == "diag":
             B.assume_all([t != 0 for t in e])
@@ -422,7 +422,7 @@ def scenarios(tier, seed):
     out.append(("sandwich_nonnormal", {"inv": False}))
     out.append(("sandwich", {"bun": "matrix", "inv": False, "cplx": True}))
     out.append(("sandwich", {"bun": "diag", "inv": True, "cplx": True}))
-    for outer in ("inv", "adj"):
+    for outer in ("inv", "adj", "adjinv", "invadj"):      # the generic OperatorAdapter, also with both bits set
         for inv in (False, True):
             out.append(("sandwich", {"bun": "diag", "inv": inv, "outer": outer}))
             out.append(("sandwich", {"bun": "matrix", "inv": inv, "outer": outer}))
